@@ -62,7 +62,10 @@ func vhTry(f func()) (panicked bool) {
 }
 
 // vhCanary: ordinary traffic must still work.
-func vhCanary(env *vhEnv, in *vhInterp) {
+func vhCanary(env0 *vhEnv, in *vhInterp) {
+	// the next client is another request with a context of its own (a lock or privilege
+	// left behind on the first context must not matter, nor help)
+	env := &vhEnv{kind: env0.kind, ctx: NewContext("canary"), store: env0.store, state: env0.state, loc: env0.loc, name: env0.name}
 	_, err := env.loc.AddFact(env.ctx, "canary", Map{"z": "1"})
 	vassert(err == nil, "canary-add")
 	got, gerr := env.loc.GetFact(env.ctx, "canary")
